@@ -43,6 +43,9 @@ CHECKS = {
     "C26": dict(level="proof", technique=PROOF_TECH, design="DESIGN.md §5 C26",
                 text="the _ConnectionRecord layer is proved against a ghost 'closed' flag per DBAPI connection: __connect leaves no half-open record when the creator fails, invalidate/close/__close close what they drop, get_connection never hands out a closed connection nor one that predates a pool-wide or soft invalidation (it is closed and replaced by a fresh one; on failure the record holds nothing), checkin runs every finalizer and returns the record exactly once (never on a double check-in). Bounded complement: fault at every DBAPI call position of every pool history.",
                 note="assumed externals (_invoke_creator, _close_connection, _return_conn); event hooks do not raise; checkout/_finalize_fairy/pre-ping retry loop bounded only"),
+    "C27": dict(level="proof", technique=PROOF_TECH, design="DESIGN.md §5 C27",
+                text="the end of life of a root transaction is proved (RootTransaction._close_impl, _do_commit, _deactivate_from_connection, 148 obligations over all paths incl. the DBAPI rollback/commit raising): it is deactivated and `connection._transaction is not self` on every exit of rollback/close, so an invalidated connection never keeps a dead transaction that would block reconnecting. Bounded complement: a disconnect / ordinary error injected at every DBAPI call position of every history on a fake DBAPI, 4 handle_error listener modes.",
+                note="abstract contracts on Connection._rollback_impl/_commit_impl and NestedTransaction._cancel; _handle_dbapi_exception, invalidate, pool invalidation bounded only; real drivers' is_disconnect outside"),
     "C28": dict(level="proof", technique=PROOF_TECH, design="DESIGN.md §5 C28",
                 text="_ClsLevelDispatch.update_subclass is proved for any MRO and any prior registry state: afterwards the target's collection holds, after what it held, every listener of every ancestor that has a collection, nothing else, and every other class's collection is untouched (loop invariant over the MRO). Bounded complement: listen/remove/dispatch histories against a ghost registry.",
                 note="other listener containers (_ListenerCollection, _EventKey, registry, exec_once) are bounded only; WeakKeyDictionary modelled as dict"),
@@ -123,7 +126,7 @@ CHECKS.update({
              "urllib.parse quote/unquote and re are CPython's; canonical query forms only", "DESIGN.md §5 C20"),
     "_C23_bounded_only": B("ghost nested-transaction model evaluated after every step of every operation sequence <= 5 (quick) / 6 (thorough) over 20 Connection/Transaction operations on file-backed SQLite with an independent observer connection. Bounded exploration.",
              "SQLite (autocommit=False mode) stands for 'a backend'; PostgreSQL/MariaDB outside", "DESIGN.md §5 C23"),
-    "C27": B("fault enumeration on a fake DBAPI with a ghost ledger: a disconnect / ordinary error injected at every DBAPI call position of every history <= 4 (quick) / 5 (thorough) x 4 handle_error listener modes; contract clauses on Connection._handle_dbapi_exception and the pool checked after every step.",
+    "_C27_bounded_only": B("fault enumeration on a fake DBAPI with a ghost ledger: a disconnect / ordinary error injected at every DBAPI call position of every history <= 4 (quick) / 5 (thorough) x 4 handle_error listener modes; contract clauses on Connection._handle_dbapi_exception and the pool checked after every step.",
              "real drivers' is_disconnect classification is outside; fake DBAPI stands for the driver", "DESIGN.md §5 C27", level="fault_enumeration"),
 })
 
